@@ -159,9 +159,12 @@ class BMCI:
         y_proj = np.dot(self.pc1, (y_obs - self.y_mean).ravel())
         s_l = y_proj - np.sqrt(2.0 * x2_max / self.pc1_e)
         s_u = y_proj + np.sqrt(2.0 * x2_max / self.pc1_e)
-        inds = np.searchsorted(self.pc1_proj, np.array([s_l, s_u]))
+        # Entries whose projection lies exactly on the border of the interval
+        # [s_l, s_u] must be kept (their chi-square may equal x2_max):
+        i_l = np.searchsorted(self.pc1_proj, s_l, side="left")
+        i_u = np.searchsorted(self.pc1_proj, s_u, side="right")
 
-        return inds[0], inds[1], inds[1] - inds[0]
+        return i_l, i_u, i_u - i_l
 
     def __gauss_prob(self, y_obs, y_database):
 
